@@ -769,8 +769,18 @@ def check_decay_unreachable(ctx, R):
          % ', '.join('%s:%d' % (f.qual, n.lineno) for f, n in sites if not (f.cls is not None and exp in f.cls.mro)),
          ctx.where(sites[0][0], sites[0][1].lineno) if sites else None)
     agg = exp.methods.get('aggregate')
-    okd = agg is not None and any(isinstance(n, ast.Assign) and src(n.value) == 'aggregations.diff_expanding' for n in own_nodes(agg.node)) \
-        and 'aggregate' not in ewm.methods
+    okd = False
+    if agg is not None and 'aggregate' not in ewm.methods:
+        # on symbolic paths (helper extraction / temporaries transparent): every path hands diff=aggregations.diff_expanding over
+        from ..symexpr import SymEval, nf
+        ps = [r for r in SymEval(M, exp).run(agg) if not r.raised]
+        okd = bool(ps)
+        for r in ps:
+            acc_calls = [c for c, s_, l in r.calls if isinstance(c, ast.Call) and isinstance(c.func, ast.Attribute)
+                         and c.func.attr == 'accumulate_partitions']
+            if len(acc_calls) != 1 or not any(k.arg == 'diff' and nf(k.value) in ('aggregations.diff_expanding', 'diff_expanding')
+                                              for k in acc_calls[0].keywords):
+                okd = False
     R.ob('DECAY-UNREACHABLE', ctx.construct(agg) if agg else DFC + '.Expanding', 'diff_expanding', okd,
          'Expanding.aggregate does not use diff_expanding (or EWM overrides aggregate)', ctx.where(agg, agg.node.lineno) if agg else None)
     de = M.function(AGG, 'diff_expanding')
